@@ -6,7 +6,7 @@ import ast
 
 from ..source import AnalysisError, norm, dotted
 from ..pymodel import model_for, FieldUse, PrinterOrder, printer_method
-from ..walker import walker_for
+from ..walker import walker_for, ancestors
 from ..grammar import load_dialect, DIALECTS
 
 # statement kinds the walker is documented to accept (README + its own branches); roots of the closure
@@ -147,6 +147,35 @@ def run(ctx):
                    f'components, then all second ones); the printer writes the elements one after the other (WHEN c1 THEN r1 WHEN c2 THEN r2), so the visiting order is '
                    f'not the textual order: positional placeholders are bound to the wrong places', file=w.file, line=ss[0].call.lineno,
                    witness='select case when a < ? then ? when a < ? then ? end from t')
+        # the same, written as separate loops / comprehensions over the field that each visit one component of the unpacked elements
+        comps = {}
+        for s_ in b.sites:
+            if s_.shape != 'elem' or not s_.call.args:
+                continue
+            a0 = s_.call.args[0]
+            base = a0.value if isinstance(a0, ast.Subscript) else a0
+            if not isinstance(base, ast.Name):
+                continue
+            for anc in ancestors(s_.call):
+                gens = [(anc.target, anc)] if isinstance(anc, ast.For) else ([(g_.target, anc) for g_ in anc.generators] if hasattr(anc, 'generators') else [])
+                hit = None
+                for tgt, holder in gens:
+                    elts = tgt.elts if isinstance(tgt, ast.Tuple) else [tgt]
+                    for i_, e_ in enumerate(elts):
+                        if isinstance(e_, ast.Name) and e_.id == base.id:
+                            ci = i_ if isinstance(tgt, ast.Tuple) else (a0.slice.value if isinstance(a0, ast.Subscript) and isinstance(a0.slice, ast.Constant) else None)
+                            hit = (id(holder), ci)
+                if hit is not None:
+                    if hit[1] is not None:
+                        comps.setdefault(s_.field, []).append((hit[0], hit[1], s_))
+                    break
+        for fld, lst in comps.items():
+            loops = {l for l, _, _ in lst}
+            split = len(loops) > 1 and len({c_ for _, c_, _ in lst}) > 1
+            ctx.ob('C13.visit-order', f'{"/".join(b.classes)}.{fld}:element-wise-loops', not split,
+                   f'{"/".join(b.classes)}.{fld}: the components of the elements are visited in {len(loops)} separate passes over the field (all first components, then all '
+                   f'second ones); the printer writes the elements one after the other (WHEN c1 THEN r1 WHEN c2 THEN r2), so the visiting order is not the textual order',
+                   file=w.file, line=lst[0][2].call.lineno, witness='select case when a < ? then ? when a < ? then ? end from t')
     # -- callback-first ---------------------------------------------------------------------------
     cb_calls = [n for n in ast.walk(w.fn) if isinstance(n, ast.Call) and isinstance(n.func, ast.Name) and n.func.id == w.cb]
     ok = False
